@@ -23,6 +23,16 @@ type hostileWorld struct {
 	cli     erpc.Peer
 	control erpc.Session
 	n       int
+	hangs   int
+}
+
+// hangBound is how long a blocked caller is waited for: generous (a loaded machine), shortened once several have hung
+// in this run (a hang is still a hang).
+func (w *hostileWorld) hangBound() time.Duration {
+	if w.hangs >= 3 {
+		return time.Second
+	}
+	return 10 * time.Second
 }
 
 var hw *hostileWorld
@@ -65,8 +75,13 @@ func (w *hostileWorld) controlOK() bool {
 }
 
 func validFrame(proto string, seq int32, tag string) []byte {
+	return typedFrame(proto, erpc.TypeCall, seq, tag)
+}
+
+// typedFrame is a well-formed frame of the given message type.
+func typedFrame(proto string, mtype byte, seq int32, tag string) []byte {
 	m := socket.NewMessage()
-	m.SetMtype(erpc.TypeCall)
+	m.SetMtype(mtype)
 	m.SetSeq(seq)
 	m.SetServiceMethod(CallRoute)
 	m.SetBodyCodec('j')
@@ -81,7 +96,11 @@ func validFrame(proto string, seq int32, tag string) []byte {
 
 // feed serves a fresh connection with the protocol, writes the input, optionally waits, closes the
 // client end and reports how the session ended.
-func (w *hostileWorld) feed(proto string, input []byte, followValid bool) (state string, allocDelta uint64, replies int) {
+//
+// sess is the state of the attacked session when the input arrives: "" / "idle"; "pending" (one CALL of the attacked side
+// is waiting for a reply that never comes); "closing" (such a CALL is pending and a graceful Close() of the session is
+// parked waiting for it).  In those states the session has ended only when the call has completed and Close() has returned.
+func (w *hostileWorld) feed(proto string, input []byte, followValid bool, sess string) (state string, allocDelta uint64, replies int) {
 	w.n++
 	a, b := Pipe(fmt.Sprintf("HC%d", w.n), fmt.Sprintf("HS%d", w.n))
 	a.TapIn() // (only the answers are looked at)
@@ -91,6 +110,41 @@ func (w *hostileWorld) feed(proto string, input []byte, followValid bool) (state
 	<-sd
 	if ss == nil {
 		return "noserve", 0, 0
+	}
+	var pendDone chan erpc.CallCmd
+	var closeRet chan struct{}
+	if sess == "pending" || sess == "closing" {
+		pendDone = make(chan erpc.CallCmd, 1)
+		sent := b.Written()
+		ss.AsyncCall(CallRoute, &Arg{Tag: "pend"}, new(Res), pendDone)
+		// the CALL is on the wire (the scripted remote end never answers it)
+		if !WaitUntil(2*time.Second, func() bool { return b.Written() > sent }) || len(pendDone) > 0 {
+			a.Close()
+			return "nosetup", 0, 0
+		}
+	}
+	if sess == "closing" {
+		closeRet = make(chan struct{})
+		go func() { ss.Close(); close(closeRet) }()
+		// Close() has announced the end of the session and now waits for the pending call
+		reached := WaitUntil(2*time.Second, func() bool {
+			select {
+			case <-ss.CloseNotify():
+				return true
+			default:
+				return false
+			}
+		})
+		time.Sleep(2 * time.Millisecond)
+		select {
+		case <-closeRet:
+			reached = false // (it did not wait)
+		default:
+		}
+		if !reached || len(pendDone) > 0 {
+			a.Close()
+			return "nosetup", 0, 0
+		}
 	}
 	var ms1, ms2 runtime.MemStats
 	runtime.ReadMemStats(&ms1)
@@ -136,6 +190,24 @@ func (w *hostileWorld) feed(proto string, input []byte, followValid bool) (state
 			return false
 		}
 	})
+	if ended && pendDone != nil {
+		// no caller stays blocked once the input is exhausted: the pending call completes, Close() returns
+		bound := w.hangBound()
+		select {
+		case <-pendDone:
+		case <-time.After(bound):
+			w.hangs++
+			return "callblocked", allocDelta, 0
+		}
+		if closeRet != nil {
+			select {
+			case <-closeRet:
+			case <-time.After(bound):
+				w.hangs++
+				return "closeblocked", allocDelta, 0
+			}
+		}
+	}
 	if !ended {
 		// a reader that is still busy (or blocked) after the input is exhausted: what it allocated in the
 		// meantime belongs to this input too (a hostile frame size may be buffered slowly)
@@ -353,6 +425,18 @@ func (d *dataRun) hostileCase(c DataCase, out map[string]interface{}) {
 	case "neglen":
 		inputs = append(inputs, []byte("POST /t/call HTTP/1.1\r\nContent-Type: application/json\r\nContent-Length: -1\r\nX-Seq: 1\r\nX-Mtype: 1\r\n\r\n{\"tag\":\"x\"}"))
 		inputs = append(inputs, []byte("POST /t/call HTTP/1.1\r\nContent-Type: application/json\r\nContent-Length: -2147483648\r\nX-Seq: 1\r\nX-Mtype: 1\r\n\r\n{\"tag\":\"x\"}"))
+	case "truncsome":
+		// a few truncations: inside the size field, inside the header, one byte short
+		inputs = [][]byte{valid[:2], valid[:len(valid)/3], valid[:len(valid)-1]}
+	case "eof":
+		inputs = [][]byte{{}} // nothing at all: the plain end of the input
+	case "badtype":
+		bt := typedFrame(proto, 9, 5, "v")
+		if bt == nil {
+			out["err"] = "cannot build a frame of an unsupported type"
+			return
+		}
+		inputs = [][]byte{bt}
 	case "lenfield":
 		v := map[string]uint64{"0": 0, "1": 1, "limit-1": uint64(limit) - 1, "limit": uint64(limit), "limit+1": uint64(limit) + 1,
 			"2^31-1": 1<<31 - 1, "2^32-1": 1<<32 - 1}[c.S("lenval")]
@@ -361,9 +445,9 @@ func (d *dataRun) hostileCase(c DataCase, out map[string]interface{}) {
 	wedged, maxAlloc := 0, uint64(0)
 	states := map[string]int{}
 	for _, in := range inputs {
-		st, alloc, _ := w.feed(proto, in, c.S("class") != "truncall")
+		st, alloc, _ := w.feed(proto, in, c.S("class") != "truncall" && c.S("class") != "truncsome", c.S("sess"))
 		states[st]++
-		if st == "wedged" || st == "noserve" {
+		if st == "wedged" || st == "noserve" || st == "nosetup" || st == "callblocked" || st == "closeblocked" {
 			wedged++
 		}
 		if alloc > maxAlloc {
